@@ -10,6 +10,11 @@ request
    "trace":[ev…]}                    the schedule as observed on the implementation:
         ["recv",sender,recipient,[cp…]]   one `receive()` call of an external party (any chunking)
         ["send",sender,recipient|null,type,[cp…]]   the message the fuzzer appended to the history
+                                           (→ fuzzerTurn (history ++ [m]))
+        ["try",[[sender,recipient|null,type,[cp…]]…],b]   `_extends_history(history_tree, candidate)` was called
+                                           with a candidate whose protocol messages are the list and returned b:
+                                           the model's `extendsB` must agree; for b = false the (stuttering)
+                                           fuzzerTurn must be enabled
         ["extract"]                        parse_next_remote_packet was entered
         ["silence"]                        the 1 s wait for a further fragment ran out
         ["unexpected"] ["nomessage"]       the 10 s / 15 s waits ran out
@@ -23,12 +28,14 @@ answer
    "stuck":null|k}       k = index of the first trace event the model does not enable (then the state is the
                          one before that event)
 
+The model runs with the variant GENERATED from the current source (`Generated.variant`).
 The internal events are derived: after "extract" (→ exStart) and after every "recv" while an extraction
 is active, `exStep` is taken as long as it is enabled, then `exFinish` if no type is left.
 A forecast asked for a history that is not in the table is a driver error (never defaulted).
 -/
 import Driver.Common
 import Model.IoRun
+import Generated.IoRun
 open Lean FV FV.Drv FV.Io
 
 structure Tables where
@@ -68,6 +75,9 @@ def specOf (T : Tables) : Spec where
     | none => false
   ok := fun _ m => !(T.forbidden.contains (m.type, m.payload))
 
+/-- the rule the current source has (harness/translate_iorun.py) -/
+def V : Variant := FV.Io.Generated.variant
+
 def known (T : Tables) (s : State) : Bool :=
   (T.forecast.find? (fun p => p.1 == s.history.map Msg.opt)).isSome
 
@@ -75,15 +85,16 @@ def known (T : Tables) (s : State) : Bool :=
 def settle (S : Spec) : Nat → State → State
   | 0, s => s
   | n + 1, s =>
-    match step S s .exStep with
+    match step V S s .exStep with
     | some s' => settle S n s'
-    | none => match step S s .exFinish with
+    | none => match step V S s .exFinish with
       | some s' => s'
       | none => s
 
 inductive TEv where
   | recv (s r : String) (d : List Nat)
   | send (m : Msg)
+  | try_ (cand : List Msg) (real : Bool)
   | extract | silence | unexpected | nomessage | done
 
 def tevOf (j : Json) : Except String TEv := do
@@ -95,6 +106,12 @@ def tevOf (j : Json) : Except String TEv := do
   | "send" =>
     return .send ⟨← (a[1]?.getD Json.null).getStr?, optStr (a[2]?.getD Json.null), ← (a[3]?.getD Json.null).getStr?,
                   ← natArr (a[4]?.getD Json.null), false⟩
+  | "try" =>
+    let ms ← (← (a[1]?.getD Json.null).getArr?).toList.mapM (fun j => do
+      let b ← j.getArr?
+      return (⟨← (b[0]?.getD Json.null).getStr?, optStr (b[1]?.getD Json.null), ← (b[2]?.getD Json.null).getStr?,
+               ← natArr (b[3]?.getD Json.null), false⟩ : Msg))
+    return .try_ ms (← (a[2]?.getD Json.null).getBool?)
   | "extract" => return .extract
   | "silence" => return .silence
   | "unexpected" => return .unexpected
@@ -102,26 +119,30 @@ def tevOf (j : Json) : Except String TEv := do
   | "done" => return .done
   | _ => throw s!"bad trace event {tag}"
 
-def runAll (S : Spec) (s : State) (evs : List Event) : Option State := runEvents S s evs
+def runAll (S : Spec) (s : State) (evs : List Event) : Option State := runEvents V S s evs
 
 /-- one observed event → model events; `none` = not enabled -/
 def applyT (S : Spec) (s : State) : TEv → Option State
   | .recv p r d =>
-    match runEvents S s (recvChunk p r d) with
+    match runEvents V S s (recvChunk p r d) with
     | some s' => some (if s'.ex.isSome then settle S (s'.buffer.length + 2) s' else s')
     | none => none
-  | .send m => step S s (.fuzzerSend m)
+  | .send m => step V S s (.fuzzerTurn (s.history ++ [m]))
+  | .try_ cand real =>
+    if extendsB s.history cand != real then none
+    else if real then some s
+    else step V S s (.fuzzerTurn cand)
   | .extract =>
-    match step S s .exStart with
+    match step V S s .exStart with
     | some s' => some (settle S (s'.buffer.length + 2) s')
     | none => none
   | .silence =>
     -- the real `can_continue()` may over-approximate (C13_canContinue_sound_partial): the code then waits the
     -- 1 s out after a parse the model already finished; that silence changes nothing
-    if s.ex.isNone && live s then some s else step S s .silence
-  | .unexpected => step S s .unexpected
-  | .nomessage => step S s .noMessage
-  | .done => step S s .finishRun
+    if s.ex.isNone && live s then some s else step V S s .silence
+  | .unexpected => step V S s .unexpected
+  | .nomessage => step V S s .noMessage
+  | .done => step V S s .finishRun
 
 def jMsgFull (m : Msg) : Json :=
   Json.arr #[Json.str m.sender, jOptStr m.recipient, Json.str m.type, jNats m.payload, Json.bool m.remote]
@@ -143,6 +164,8 @@ def jState (s : State) (stuck : Option Nat) : Json :=
     ("finished", Json.bool s.finished),
     ("rejected", match s.rejected with | some m => jMsgFull m | none => Json.null),
     ("extracting", Json.bool s.ex.isSome),
+    ("variant", Json.arr #[Json.bool V.findByRecipient, Json.bool V.clearByRecipient, Json.bool V.typesByRecipient,
+                           Json.bool V.extendsGuard]),
     ("stuck", match stuck with | some k => Json.num (JsonNumber.fromNat k) | none => Json.null)]
 
 /-- `want` = parse_next_remote_packet has been entered but no buffered fragment's sender is in the
